@@ -89,6 +89,7 @@ class Family:
     def __init__(self, name: str, scratch: str | None = None):
         self.name = name
         self.scratch = scratch
+        self.ev = None
         if name == "rule":
             self.vocab = RULE_VOCAB
         elif name == "layer":
@@ -109,6 +110,8 @@ class Family:
         return DiagramRuleAutomaton()
 
     def resolve(self, a):
+        if a == "EV":
+            return self.ev
         if a == "ARCH":
             return _mk_arch()
         if self.name == "diagram" and a in ("good", "notags"):
@@ -122,6 +125,7 @@ def classify(expects, final) -> bool:
 
 
 def history_outcome(fam: Family, seq_or_len, ev, prefix=()):
+    fam.ev = ev
     hist, expects, final, real, _, _ = play(seq_or_len, fam.vocab, fam.make_obj, fam.make_aut, lambda obj: evaluate(obj, ev, with_message=False), fam.resolve, prefix)
     must_error = classify(expects, final)
     cls = "ERROR" if real[0] in ("RAISED", "ERROR") else real[0]
@@ -145,6 +149,12 @@ def instances(tier: str) -> list[dict]:
         for first in range(len(vocab)):
             out.append({"part": "history", "family": fam, "first": first, "L": L})
     out.append({"part": "history", "family": "diagram", "first": None, "L": 4})
+    # reuse after application: a complete chain, an application, then up to 2 (quick) / 3 more calls, then the
+    # final application - the specification automaton keeps judging the configuration the calls add up to
+    for fam in ("rule", "layer"):
+        n = len(complete_chains(fam))
+        for ci in range(0, n, 1 if tier == "thorough" else 3):
+            out.append({"part": "reuse", "family": fam, "chain": ci, "L": 2 if tier == "quick" else 3})
     out.append({"part": "mutants", "family": "rule"})
     out.append({"part": "mutants", "family": "layer"})
     # unknown names
@@ -165,6 +175,8 @@ def work(inst: dict) -> dict:
     before = solver().stats()
     part = inst["part"]
     if part == "history":
+        res = work_history(inst)
+    elif part == "reuse":
         res = work_history(inst)
     elif part == "mutants":
         res = work_mutants(inst)
@@ -196,8 +208,12 @@ def work_history(inst) -> dict:
         fam = Family(inst["family"], scratch)
         arch = SymArch(NODES)
         L = inst["L"]
-        prefix = () if inst["first"] is None else (fam.vocab[inst["first"]],)
-        Ls = L - len(prefix)
+        if inst["part"] == "reuse":
+            prefix = tuple(complete_chains(inst["family"])[inst["chain"]]) + (Sym("APPLY", "EV"),)
+            Ls = L
+        else:
+            prefix = () if inst["first"] is None else (fam.vocab[inst["first"]],)
+            Ls = L - len(prefix)
 
         def fn():
             return history_outcome(fam, Ls, arch.ev, prefix)
@@ -214,7 +230,7 @@ def work_history(inst) -> dict:
         classes: dict = {}
         for o in summ.outcomes():
             classes[str(o)] = classes.get(str(o), 0) + 1
-        res["samples"] = [{"family": fam.name, "first": prefix[0].show() if prefix else None, "max_len": L, "histories_and_paths": summ.paths, "distinct_outcomes": sorted(classes)}]
+        res["samples"] = [{"family": fam.name, "first": " . ".join(p_.show() for p_ in prefix) if prefix else None, "max_len": L, "histories_and_paths": summ.paths, "distinct_outcomes": sorted(classes)}]
         if st == "unknown":
             res["errors"].append("solver unknown")
         elif st == "sat":
@@ -231,7 +247,7 @@ def work_history(inst) -> dict:
                 payload["signature"] = {"family": fam.name, "history": payload["history"]}
                 res["violations"].append(payload)
         # reachability witness: some valid complete history yields a verdict (harness is not vacuous)
-        if inst["first"] == 0 or inst["first"] is None:
+        if inst["part"] != "reuse" and (inst["first"] == 0 or inst["first"] is None):
             wit = summ.formula(lambda o: (not o[0]) and o[1] in ("PASS", "FAIL"), pool)
             stw, _ = solver().check(*pool.domain, wit)
             if stw != "sat" and (L >= 5 or fam.name == "diagram"):
